@@ -18,6 +18,8 @@
 (*                     TJ number) instead of after every glyph             *)
 (*   "FormNoGsInherit" a form XObject starts from a fresh graphics state   *)
 (*   "CsNoColorReset"  cs/CS do not reset the colour to the initial value  *)
+(*   "LoneMoveShape"   a painted path that is a lone `m` yields a one-point *)
+(*                     curve although it has no segment                    *)
 (*   "DQuoteNoTstar", "FormCtmLeak", "ScnShortRaises" (repaired in /repo)  *)
 (***************************************************************************)
 EXTENDS Integers, Sequences, FiniteSets, TLC, Json, InterpFrame
@@ -173,9 +175,9 @@ OneShape(st, sub, stroke, fill, eo) ==
 Paint(st, stroke, fill, eo) ==
   LET p == st.path
       subs == IF p = <<>> \/ p[1][1] # "m" THEN <<>> ELSE SplitSub(p, <<>>, <<>>)
-      \* "m[^m]+": a subpath consisting of the m alone paints nothing; a single subpath `m` alone is a degenerate curve in
-      \* the code, which the property ("at least one segment") does not constrain - it is left out on both sides
-      real == SelectSeq(subs, LAMBDA s : Len(s) > 1)
+      \* "m[^m]+": a subpath consisting of the m alone has no segment and paints nothing (intended design)
+      \* as coded ("LoneMoveShape"): a path that is one lone `m` (and nothing else) still yields a one-point curve
+      real == IF "LoneMoveShape" \in Dev /\ Len(p) = 1 /\ p[1][1] = "m" THEN subs ELSE SelectSeq(subs, LAMBDA s : Len(s) > 1)
   IN [st EXCEPT !.shapes = st.shapes \o [i \in 1..Len(real) |-> OneShape(st, real[i], stroke, fill, eo)], !.path = <<>>]
 
 \* ------------------------------------------------------------------ operators
